@@ -70,6 +70,31 @@ func (e *Exec) setResult(f *Frame, result ssa.Value, v Val) {
 	}
 }
 
+// bindCallResult: `bind call Callee: a, b` names the results of the first call site of Callee in the root function.
+func (e *Exec) bindCallResult(cc *callCtx, v Val) {
+	if cc.f != e.rootFrame || e.rootCtr == nil || len(e.rootCtr.BindCalls) == 0 {
+		return
+	}
+	for _, n := range cc.names {
+		names, ok := e.rootCtr.BindCalls[n]
+		if !ok || e.boundCalls[n] {
+			continue
+		}
+		if e.discovery == 0 {
+			e.boundCalls[n] = true
+		}
+		vals := v.Tup
+		if len(vals) == 0 {
+			vals = []Val{v}
+		}
+		for i, nm := range names {
+			if nm != "_" && i < len(vals) {
+				e.rootBinders[nm] = vals[i]
+			}
+		}
+	}
+}
+
 func (e *Exec) execCall(f *Frame, b *ssa.BasicBlock, instr ssa.Instruction, c *ssa.CallCommon, result ssa.Value, st *State, reach Term) {
 	var resT types.Type = c.Signature().Results()
 	if rt, ok := resT.(*types.Tuple); ok && rt.Len() == 1 {
@@ -187,6 +212,15 @@ func (e *Exec) uninterp(name string, args []Val, resT types.Type) Val {
 }
 
 func (e *Exec) callFunction(cc *callCtx, fn *ssa.Function, bindings []Val, result ssa.Value) {
+	e.callFunction1(cc, fn, bindings, result)
+	if result != nil {
+		if v, ok := cc.f.vals[result]; ok {
+			e.bindCallResult(cc, v)
+		}
+	}
+}
+
+func (e *Exec) callFunction1(cc *callCtx, fn *ssa.Function, bindings []Val, result ssa.Value) {
 	f := cc.f
 	cc.names = calleeNames(cc.key)
 	isWrapper := fn != nil && fn.Synthetic != "" && fn.Blocks != nil && (strings.HasPrefix(fn.Synthetic, "wrapper") || strings.HasPrefix(fn.Synthetic, "bound") || strings.HasPrefix(fn.Synthetic, "thunk"))
@@ -251,9 +285,40 @@ func (e *Exec) packResult(resT types.Type, rets []Val) Val {
 	return Val{T: resT, Term: "0"}
 }
 
+// paramMods: a call's write set expressed over the callee's parameters (memoised per callee).
+type paramMod struct {
+	comp string
+	kind int // 0 whole, 1 argument i, 2 binding i, 3 literal/global constant term
+	idx  int
+	term Term
+}
+
+func modsKey(fn *ssa.Function, args, bindings []Val) string {
+	var b strings.Builder
+	b.WriteString(fn.String())
+	for _, a := range append(append([]Val{}, args...), bindings...) {
+		if a.Clo != nil {
+			b.WriteString("|" + a.Clo.Fn.String())
+			for _, bb := range a.Clo.Bindings {
+				if bb.Clo != nil {
+					b.WriteString("+" + bb.Clo.Fn.String())
+				}
+			}
+		} else {
+			b.WriteString("|-")
+		}
+	}
+	return b.String()
+}
+
 // modsOfCall: heap components/cells a call may modify, discovered by a dry run of the callee's
-// body with the actual arguments (so that writes to caller-known cells stay cell-precise).
+// body with the actual arguments (so that writes to caller-known cells stay cell-precise). The result
+// is memoised per callee in terms of its parameters.
 func (e *Exec) modsOfCall(fn *ssa.Function, args, bindings []Val, st *State) modSet {
+	key := modsKey(fn, args, bindings)
+	if pm, ok := e.W.getParamMods(key); ok {
+		return e.instantiateMods(pm, args, bindings)
+	}
 	if e.modsBusy[fn] {
 		// recursion: fall back to everything this function is already known to touch, entirely
 		ms := modSet{}
@@ -261,22 +326,15 @@ func (e *Exec) modsOfCall(fn *ssa.Function, args, bindings []Val, st *State) mod
 			ms.add(c, "")
 		}
 		e.recursive[fn] = true
+		e.busyHits++
 		return ms
 	}
 	e.modsBusy[fn] = true
 	defer delete(e.modsBusy, fn)
+	hits0 := e.busyHits
 	var result modSet
 	for iter := 0; iter < 4; iter++ {
-		nitems, nobl := len(e.items), len(e.obls)
-		logStart := len(e.wlog)
-		savedDeclared := map[string]bool{}
-		for k := range e.declared {
-			savedDeclared[k] = true
-		}
-		savedCompInit := map[string]Term{}
-		for k, v := range e.compInit {
-			savedCompInit[k] = v
-		}
+		sn := e.snapshot()
 		e.discovery++
 		dry := st.clone()
 		savedStack := e.inlineStack
@@ -294,22 +352,9 @@ func (e *Exec) modsOfCall(fn *ssa.Function, args, bindings []Val, st *State) mod
 				changed[k] = true
 			}
 		}
-		newComps := map[string]Term{}
-		for k, v := range e.compInit {
-			if _, ok := savedCompInit[k]; !ok {
-				newComps[k] = v
-			}
-		}
-		e.items = e.items[:nitems]
-		e.obls = e.obls[:nobl]
-		e.declared = savedDeclared
-		for _, k := range sortedKeys(newComps) {
-			init := newComps[k]
-			e.items = append(e.items, Item{Kind: ItemDecl, Sym: init, Text: fmt.Sprintf("(declare-const %s %s)", init, e.compSort[k])})
-			e.initCompFacts(k, e.compSort[k], init)
-		}
-		ms := e.refineMods(changed, logStart, nitems)
-		e.wlog = e.wlog[:logStart]
+		ms := e.refineMods(changed, sn.nlog, sn.nitems)
+		e.wlog = e.wlog[:sn.nlog]
+		e.rollback(sn)
 		result = ms
 		names := sortedKeys(changed)
 		prev := e.modsMemo[fn]
@@ -331,9 +376,83 @@ func (e *Exec) modsOfCall(fn *ssa.Function, args, bindings []Val, st *State) mod
 		for _, c := range e.modsMemo[fn] {
 			ms.add(c, "")
 		}
-		return ms
+		result = ms
+	}
+	// parametrise and memoise (only when no enclosing recursion is still being resolved)
+	if e.busyHits == hits0 || len(e.modsBusy) == 1 {
+		var pm []paramMod
+		for comp, refs := range result {
+			if len(refs) == 0 {
+				pm = append(pm, paramMod{comp: comp, kind: 4})
+			}
+			for r := range refs {
+				pm = append(pm, e.parametrise(comp, r, args, bindings))
+			}
+		}
+		e.W.setParamMods(key, pm, e.compSort)
 	}
 	return result
+}
+
+func (e *Exec) parametrise(comp string, ref Term, args, bindings []Val) paramMod {
+	if ref == "" {
+		return paramMod{comp: comp, kind: 0}
+	}
+	for i, a := range args {
+		if len(a.Tup) == 0 && a.Addr == nil && a.Term == ref {
+			return paramMod{comp: comp, kind: 1, idx: i}
+		}
+	}
+	for i, a := range bindings {
+		if len(a.Tup) == 0 && a.Addr == nil && a.Term == ref {
+			return paramMod{comp: comp, kind: 2, idx: i}
+		}
+	}
+	if strings.HasPrefix(ref, "gv_") || strings.HasPrefix(ref, "glob_") || (ref[0] >= '0' && ref[0] <= '9') {
+		return paramMod{comp: comp, kind: 3, term: ref}
+	}
+	return paramMod{comp: comp, kind: 0}
+}
+
+func (e *Exec) instantiateMods(pm []paramMod, args, bindings []Val) modSet {
+	ms := modSet{}
+	for _, p := range pm {
+		if _, ok := e.compSort[p.comp]; !ok {
+			so := e.W.compSortOf(p.comp)
+			if so == "" {
+				continue
+			}
+			e.reg.useSort(so)
+			e.comp(&State{comps: map[string]Term{}}, p.comp, so)
+		}
+		switch p.kind {
+		case 0:
+			ms.add(p.comp, "")
+		case 1:
+			if p.idx < len(args) && args[p.idx].Addr == nil && isAtom(args[p.idx].Term) {
+				ms.add(p.comp, args[p.idx].Term)
+			} else {
+				ms.add(p.comp, "")
+			}
+		case 2:
+			if p.idx < len(bindings) && bindings[p.idx].Addr == nil && isAtom(bindings[p.idx].Term) {
+				ms.add(p.comp, bindings[p.idx].Term)
+			} else {
+				ms.add(p.comp, "")
+			}
+		case 3:
+			if strings.HasPrefix(p.term, "glob_") && !e.declared[p.term] {
+				ms.add(p.comp, "")
+			} else {
+				ms.add(p.comp, p.term)
+			}
+		case 4:
+			if ms[p.comp] == nil {
+				ms[p.comp] = map[string]bool{}
+			}
+		}
+	}
+	return ms
 }
 
 // callByContract: modular call — check requires, havoc modifies, assume ensures.
@@ -351,18 +470,67 @@ func (e *Exec) callByContract(cc *callCtx, fn *ssa.Function, ctr *FuncContract, 
 			fmt.Sprintf("precondition of %s at call site: %s", ctr.Name, cl.Text), "requires "+cl.Text)
 		e.assume(Implies(cc.reach, t), "")
 	}
-	for _, cl := range globalInvs[ctr.Pkg] {
-		t, err := e.evalBool(env, cl.Expr)
-		if err != nil {
-			panic(fmt.Sprintf("fatal: global-invariant %s: %v", cl.Text, err))
-		}
-		e.oblige("ginv", "call."+ctr.Name, mergeProps(cl.Props, e.rootProps()), cc.reach, t, "package invariant holds before calling "+ctr.Name+": "+cl.Text, "global-invariant "+cl.Text)
+	for _, gi := range e.allGlobalInvs(cc.st, cc.st) {
+		e.oblige("ginv", "call."+ctr.Name, gi.cl.Props, cc.reach, gi.term, "package invariant holds before calling "+ctr.Name+": "+gi.cl.Text, "global-invariant "+gi.cl.Text)
 	}
 	pre := cc.st.clone()
 	ms := e.modsOfCall(fn, cc.args, bindings, cc.st)
 	for k := range ms {
-		if strings.HasPrefix(k, "VISITED_") {
-			delete(ms, k)
+		if strings.HasPrefix(k, "VISITED_") || strings.HasPrefix(k, "CALLED_") || strings.HasPrefix(k, "COUNT_") {
+			delete(ms, k) // ghost flags describe the caller's own body (including inlined code) only
+		}
+	}
+	if ctr.Writes != nil {
+		// framed havoc: everything allocated before the call and not listed keeps its value
+		envT := *env
+		envT.cur = pre
+		envT.old = pre
+		targets, err := e.evalWriteTargets(&envT, ctr.Writes)
+		if err != nil {
+			panic(fmt.Sprintf("fatal: contract of %s: %v", ctr.Name, err))
+		}
+		if e.rootCtr != nil && e.rootCtr.Writes != nil && e.discovery == 0 {
+			for _, t := range targets {
+				goal := ""
+				if t.member == nil {
+					goal = e.writeAllowed(t.single)
+				} else {
+					goal = fmt.Sprintf("(forall ((rw Int)) (=> (and (not (= rw 0)) %s) %s))", t.member("rw"), e.writeAllowed("rw"))
+				}
+				e.oblige("frame", "call."+ctr.Name, e.rootCtr.Writes.Props, cc.reach, goal,
+					"callee "+ctr.Name+" may write "+t.text+", which is outside the declared footprint", "writes "+e.rootCtr.Writes.Text)
+			}
+		}
+		apre := e.allocCtr(pre)
+		for _, m := range sortedKeys(ms) {
+			so := e.compSort[m]
+			if m == allocComp || !strings.HasPrefix(so, "(Array Int ") {
+				continue
+			}
+			old := e.comp(cc.st, m, so)
+			e.havocComp(cc.st, m)
+			nw := cc.st.comps[m]
+			cond := []Term{app("<=", "rq", apre)}
+			for _, t := range targets {
+				cond = append(cond, Not(t.contains("rq")))
+			}
+			e.assumeKeyed(nw, fmt.Sprintf("(forall ((rq Int)) (! (=> %s (= (select %s rq) (select %s rq))) :pattern ((select %s rq))))", And(cond...), nw, old, nw), "frame of "+ctr.Name+": writes "+ctr.Writes.Text)
+			delete(ms, m)
+		}
+	} else if e.rootCtr != nil && e.rootCtr.Writes != nil && e.discovery == 0 {
+		// callee without a writes clause: its discovered write set must lie inside the caller's footprint
+		for _, m := range sortedKeys(ms) {
+			so := e.compSort[m]
+			if m == allocComp || !strings.HasPrefix(so, "(Array Int ") {
+				continue
+			}
+			if ms[m][""] {
+				e.oblige("frame", "call."+ctr.Name, e.rootCtr.Writes.Props, cc.reach, "false", "callee "+ctr.Name+" has no writes clause and may write "+m+" anywhere", "writes "+e.rootCtr.Writes.Text)
+				continue
+			}
+			for r := range ms[m] {
+				e.oblige("frame", "call."+ctr.Name, e.rootCtr.Writes.Props, cc.reach, e.writeAllowed(r), "callee "+ctr.Name+" writes "+m+" at "+r, "writes "+e.rootCtr.Writes.Text)
+			}
 		}
 	}
 	e.applyHavoc(cc.st, ms)
@@ -384,12 +552,8 @@ func (e *Exec) callByContract(cc *callCtx, fn *ssa.Function, ctr *FuncContract, 
 		}
 		e.assume(t, "")
 	}
-	for _, cl := range globalInvs[ctr.Pkg] {
-		t, err := e.evalBool(env2, cl.Expr)
-		if err != nil {
-			panic(fmt.Sprintf("fatal: global-invariant %s: %v", cl.Text, err))
-		}
-		e.assume(t, "package invariant after call")
+	for _, gi := range e.allGlobalInvs(pre, cc.st) {
+		e.assume(gi.term, "package invariant after call")
 	}
 	if ctr.Trusted {
 		e.assumes["trusted in-repo contract: "+ctr.Pkg+"."+ctr.Name+" ("+ctr.TrustedWhy+")"] = true
